@@ -22,5 +22,5 @@ EXTRA = [new_prog(nmq=1, actors=[[op("mput", 1), op("mputa", 1), op("wait", 1)],
 
 
 def run(ctx):
-    kernel_sync.run(ctx, "mess", 150, 600, extra=EXTRA,
-                    gen=lambda rng, quick: K.gen_comm_prog(rng, max_actors=3 if quick else 4, max_ops=4 if quick else 5, mess=True))
+    kernel_sync.run(ctx, "mess", 150, 400, extra=EXTRA,
+                    gen=lambda rng, quick: K.gen_comm_prog(rng, max_actors=3 if quick else 4, max_ops=4, mess=True))
